@@ -798,17 +798,15 @@ class Model:
         #normalize the arg
 
         normalized_arg= fp.normalize(arg, self.dt, self.starttime, max(fp.scale(self.starttime), fp.scale(self.dt)))
-        try:
-            mymemo = self.memo[equation]
-        except:
-            # In case the equation does not exist in memo
-            self.memo[equation] = {}
-            mymemo = self.memo[equation]
+        # the per-equation simulation threads share the memo: setdefault makes sure that all of them
+        # see one dictionary per equation and one value per (equation, time), also if two of them
+        # happen to evaluate the same equation at the same time
+        mymemo = self.memo.setdefault(equation, {})
         if normalized_arg in mymemo.keys():
             return mymemo[normalized_arg]
         else:
             result = self.equations[equation](normalized_arg)
-            mymemo[normalized_arg] = result
+            result = mymemo.setdefault(normalized_arg, result)
 
         return result
 
